@@ -293,8 +293,9 @@ def run_recorded(res, tier, seed):
             for r_ in range(k + 2 - j + 1):
                 cb = R.RTx([(R.NULL32, 0, ("cb", h0 + 1 + r_, b"rival%d.%d.%d" % (k, j, r_)))], [(10 ** 9, bytes(64))])
                 rb_ = R.RBlock(h0 + 1 + r_, prev, R.merkle_root([cb.id()]), ts0 + 1 + r_, real[0].target, r_, (R.NULL32,) * 3, [cb])
-                cs2 = cs2.add_block_no_validation(b.to_sk_block(rb_))
-                prev = rb_.id()
+                skb_ = b.to_sk_block(rb_)
+                cs2 = cs2.add_block_no_validation(skb_)
+                prev = skb_.hash()
             res.evaluations += 1
             res.nontrivial("rival:%d:%d" % (k, j))
             if cs2.current_chain_hash == real[k - 1].hash():
@@ -311,12 +312,18 @@ def run_recorded(res, tier, seed):
 
 def run(shard, tier, seed):
     res = Result()
-    if shard["kind"] == "table":
-        run_table(res, tier, seed, shard)
-    elif shard["kind"] == "deep":
-        run_deep(res, tier, seed)
-    else:
-        run_recorded(res, tier, seed)
+    try:
+        if shard["kind"] == "table":
+            run_table(res, tier, seed, shard)
+        elif shard["kind"] == "deep":
+            run_deep(res, tier, seed)
+        else:
+            run_recorded(res, tier, seed)
+    except env.HarnessError as e:
+        res.error("HarnessError: %s" % e)                  # failures found before this point are kept
+    except Exception:
+        import traceback
+        res.error("sub-check crashed:\n" + traceback.format_exc()[-1500:])
     return res
 
 
